@@ -43,6 +43,39 @@ from discopy import cat, messages, drawing, rewriting
 from discopy.cat import Ob
 
 
+_VERIF_HOOK = __import__("os").environ.get("DISCOPY_VERIF") == "1"
+
+
+class VerifHookError(AssertionError):
+    """ Raised only when DISCOPY_VERIF=1: an ill-typed diagram was built. """
+
+
+def _verif_rescan(diagram):
+    """
+    Verification hook (DISCOPY_VERIF=1 only): re-reads boxes and offsets from
+    the domain with explicit range checks and compares with the layers.
+    """
+    scan, layers = diagram.dom.objects, diagram.layers
+    boxes, offsets = diagram.boxes, diagram.offsets
+    ok = len(boxes) == len(offsets) == len(layers)\
+        and layers.dom.objects == scan\
+        and layers.cod.objects == diagram.cod.objects
+    for box, off, layer in zip(boxes, offsets, layers.boxes if ok else []):
+        left, _, right = layer
+        width = len(box.dom)
+        ok = ok and 0 <= off <= len(scan) - width\
+            and scan[off:off + width] == box.dom.objects\
+            and left.objects == scan[:off]\
+            and right.objects == scan[off + width:]
+        if not ok:
+            break
+        scan = scan[:off] + box.cod.objects + scan[off + width:]
+    if not ok or scan != diagram.cod.objects:
+        raise VerifHookError(
+            "DISCOPY_VERIF: ill-typed diagram dom={} cod={} boxes={} offsets={}"
+            .format(diagram.dom, diagram.cod, boxes, offsets))
+
+
 class Ty(Ob):
     """
     Implements a type as a list of :class:`discopy.cat.Ob`, used as domain and
@@ -356,6 +389,8 @@ class Diagram(cat.Arrow):
             layers = layers >> cat.Id(cod)
         self._layers, self._offsets = layers, tuple(offsets)
         super().__init__(dom, cod, boxes, _scan=False)
+        if _VERIF_HOOK:
+            _verif_rescan(self)
 
     @property
     def offsets(self):
